@@ -44,6 +44,8 @@ static std::string classified(const char* sig, const std::string& desc) {
 	return std::string("[sig=") + sig + "] " + desc + "; ";
 }
 
+static std::string lower(std::string s) { for (size_t i = 0; i < s.size(); i++) s[i] = (char)tolower((unsigned char)s[i]); return s; }
+// headers: field names are case-insensitive and the spelling in which the library stores them is not documented: keyed by the lower-case name
 struct Seen { std::string method, path, query, body, hLower; std::map<std::string, std::string> headers, qv; };
 struct Srv : public HttpServer {
 	std::vector<Seen> seen;
@@ -51,7 +53,7 @@ struct Srv : public HttpServer {
 	void serve(HttpRequest& q, HttpResponse& r) {
 		Seen s; s.method = vfx::S(q.method()); s.path = vfx::S(q.path()); s.query = vfx::S(q.querystring());
 		const ByteArray& b = q.body(); s.body.assign((const char*)b.data(), b.length());
-		foreach2 (String & k, const String& v, q.headers()) s.headers[vfx::S(k)] = vfx::S(v);
+		foreach2 (String & k, const String& v, q.headers()) s.headers[lower(vfx::S(k))] = vfx::S(v);
 		foreach2 (String & k2, const String& v2, q.query()) s.qv[vfx::S(k2)] = vfx::S(v2);
 		s.hLower = q.hasHeader("x-lOwEr") ? vfx::S(q.header("X-LOWER")) : std::string("<absent>");
 		seen.push_back(s);
@@ -141,7 +143,7 @@ static Job echoJob(const char* method, int len, int code, int bound) {
 			else { HttpRequest req(m.c_str(), url, ba, h); res = Http::request(req); }
 			std::string got = bodyStr(res);
 			if (res.hasHeader("Content-Length") && (int)res.header("Content-Length") != (int)got.size()) e += "client received " + fmt("%d", (int)got.size()) + " body bytes of a response that announces Content-Length " + vfx::S(res.header("Content-Length")) + "; ";
-			if (m == "OPTIONS" && res.code() == 200 && res.header("X-Method") == "" && res.header("Allow").contains("OPTIONS") && got.empty()) { autoOptions = true; wit(W_OPTIONS_AUTO); } // the server answers OPTIONS itself (HttpServer::handleOptions)
+			if (m == "OPTIONS" && res.code() / 100 == 2 && res.header("X-Method") == "" && res.header("Allow").contains("OPTIONS") && got.empty()) { autoOptions = true; wit(W_OPTIONS_AUTO); } // the server answers OPTIONS itself (HttpServer::handleOptions), with any 2xx status (200 or 204 No Content)
 			else {
 				if (res.code() != code) e += fmt("client saw status %d instead of %d; ", res.code(), code);
 				std::string want = m == "GET" && len == 0 ? "" : body;
@@ -159,7 +161,7 @@ static Job echoJob(const char* method, int len, int code, int bound) {
 		else {
 			e += cmpSeen(srv.seen[0], m, "/echo", fmt("code=%d%s", code, ECHO_Q), body); wit(W_PCTPATH);
 			e += cmpQuery(srv.seen[0], fmt("code=%d|k=a b c&d|k2==|e=", code).c_str());
-			if (srv.seen[0].headers["X-Token"] != "tok 1;=,") e += "request header X-Token lost or changed; ";
+			if (srv.seen[0].headers["x-token"] != "tok 1;=,") e += "request header X-Token lost or changed; ";
 			if (srv.seen[0].hLower != "lv") e += "request header sent as 'x-lower: lv' is seen by the handler as '" + srv.seen[0].hLower + "'; "; else wit(W_LOWER_HDR);
 			if (m != "GET" && m != "POST" && m != "PUT") wit(W_METHODS);
 		}
@@ -200,7 +202,7 @@ static Job hdr3Job(int bound) {
 		}
 		if (vf::asan_tripped() && vf::asan_what().find("heap-use-after-free") != std::string::npos) { vf::asan_clear(); e = classified("headers_grow_while_shared", "HttpRequest(method, url, body, headers) with exactly 3 headers: the request shares the caller's Dic and adding Content-Length reallocates it: heap-use-after-free when the caller's Dic is used or destroyed") + e; }
 		L.done();
-		if (L.srv.seen.size() != 1) e += fmt("handler invoked %d times; ", (int)L.srv.seen.size()); else { e += cmpSeen(L.srv.seen[0], "POST", "/echo", "code=201", body); if (L.srv.seen[0].headers["X-B"] != "b" || L.srv.seen[0].headers["X-Token"] != "t3") e += "request headers lost; "; }
+		if (L.srv.seen.size() != 1) e += fmt("handler invoked %d times; ", (int)L.srv.seen.size()); else { e += cmpSeen(L.srv.seen[0], "POST", "/echo", "code=201", body); if (L.srv.seen[0].headers["x-b"] != "b" || L.srv.seen[0].headers["x-token"] != "t3") e += "request headers lost; "; }
 		wit(W_HDR3);
 		return e;
 	};
@@ -258,7 +260,7 @@ static Job formJob(int bound) {
 			wit(W_FORM);
 		}
 		L.done();
-		if (L.srv.seen.size() == 1 && L.srv.seen[0].headers["Content-Type"] != "application/x-www-form-urlencoded") e += "Content-Type of the form post seen as '" + L.srv.seen[0].headers["Content-Type"] + "'; ";
+		if (L.srv.seen.size() == 1 && L.srv.seen[0].headers["content-type"] != "application/x-www-form-urlencoded") e += "Content-Type of the form post seen as '" + L.srv.seen[0].headers["content-type"] + "'; ";
 		return e;
 	};
 	return j;
@@ -284,6 +286,8 @@ static RangeWant rangeWant(const std::string& hv) {
 	if (f >= 6) { w.kind = 2; return w; }
 	w.kind = 1; w.first = f; w.last = l > 5 ? 5 : l; return w;
 }
+// a 416 response may carry an explanation, but not content of the file: a piece of the file, or something that contains the whole file
+static bool isFileContent(const std::string& got) { return !got.empty() && (FILE6.find(got) != std::string::npos || got.find(FILE6) != std::string::npos); }
 static std::string rangeBody(const std::string& hv) {
 	std::string e; Listener L;
 	{
@@ -307,7 +311,7 @@ static std::string rangeBody(const std::string& hv) {
 			wit(W_RANGE416);
 			if (whole) {}
 			else if (hv.compare(0, 7, "bytes=-") == 0 && res.code() == 206) e = classified("range_suffix", what + ": a suffix range of length 0 is answered as if it were bytes=0-0; expected 416 or the whole file with 200") + e;
-			else if (res.code() == 416 && (!got.empty() || cr != "bytes */6")) e = classified("range_416_body", what + ": an unsatisfiable range must be answered with 416, 'Content-Range: bytes */6' and no file content") + e;
+			else if (res.code() == 416 && (isFileContent(got) || (res.hasHeader("Content-Range") && cr != "bytes */6"))) e = classified("range_416_body", what + ": an unsatisfiable range must be answered with 416, 'Content-Range: bytes */6' and no file content") + e;
 			else if (res.code() != 416) e += what + ", expected 416; ";
 		}
 		else if (w.kind == 3) {
@@ -354,7 +358,7 @@ static Job putFileJob(int bound) {
 			wit(W_FILE_REQ);
 		}
 		L.done();
-		if (L.srv.seen.size() != 1) e += fmt("handler invoked %d times; ", (int)L.srv.seen.size()); else { e += cmpSeen(L.srv.seen[0], "PUT", "/echo", "code=201", FILE6); if (L.srv.seen[0].headers["Content-Length"] != "6") e += "Content-Length of a file body is '" + L.srv.seen[0].headers["Content-Length"] + "'; "; }
+		if (L.srv.seen.size() != 1) e += fmt("handler invoked %d times; ", (int)L.srv.seen.size()); else { e += cmpSeen(L.srv.seen[0], "PUT", "/echo", "code=201", FILE6); if (L.srv.seen[0].headers["content-length"] != "6") e += "Content-Length of a file body is '" + L.srv.seen[0].headers["content-length"] + "'; "; }
 		return e;
 	};
 	return j;
@@ -373,7 +377,7 @@ static Job uploadJob(int bound) {
 		L.done();
 		if (L.srv.seen.size() != 1) e += fmt("handler invoked %d times; ", (int)L.srv.seen.size());
 		else {
-			Seen& s = L.srv.seen[0]; std::string ct = s.headers["Content-Type"], pre = "multipart/form-data; boundary=";
+			Seen& s = L.srv.seen[0]; std::string ct = s.headers["content-type"], pre = "multipart/form-data; boundary=";
 			if (s.method != "POST" || s.path != "/echo") e += "upload seen as " + s.method + " " + s.path + "; ";
 			if (ct.compare(0, pre.size(), pre) != 0 || ct.size() == pre.size()) e += "Content-Type of an upload is '" + ct + "'; ";
 			else {
@@ -382,7 +386,7 @@ static Job uploadJob(int bound) {
 				if (!good) e += fmt("multipart body (%d bytes) does not consist of the opening boundary, part headers, content and closing boundary announced in Content-Type: %s; ", (int)b.size(), vf::hex(b).substr(0, 400).c_str());
 				else { std::string part = b.substr(open.size(), he - open.size()), content = b.substr(he + 4, b.size() - close.size() - he - 4); if (content != FILE6) e += "file content inside the multipart body is '" + content + "'; "; if (part.find("filename=\"f.txt\"") == std::string::npos) e += "part headers do not name the file; "; }
 			}
-			if (s.headers["Content-Length"] != fmt("%d", (int)s.body.size())) e += fmt("Content-Length '%s' of an upload whose body has %d bytes; ", s.headers["Content-Length"].c_str(), (int)s.body.size());
+			if (s.headers["content-length"] != fmt("%d", (int)s.body.size())) e += fmt("Content-Length '%s' of an upload whose body has %d bytes; ", s.headers["content-length"].c_str(), (int)s.body.size());
 		}
 		return e;
 	};
@@ -426,8 +430,9 @@ static Job redirectJob(int code, int hops, bool follow, int bound) {
 			HttpResponse res = Http::request(req); rc = res.code();
 			std::string got = bodyStr(res);
 			if (!follow) { wit(W_REDIRECT_OFF); if (rc != code || got != "moved" || !res.header("Location").startsWith(BASEURL "/")) e += fmt("redirects not followed: client saw status %d, body '%s', Location '%s' instead of the %d the handler produced; ", rc, got.c_str(), *res.header("Location"), code); }
-			else if (rc == 421 && hops > 3) wit(W_REDIRECT_LIMIT);
-			else if (rc != 201 || got != body || res.header("X-Method") != m.c_str() || res.header("X-Token") != "r") e += fmt("after %d redirect(s) with status %d the client saw status %d, a %d-byte body, X-Method '%s' instead of the final response (201, %d bytes, %s); ", hops, code, rc, (int)got.size(), *res.header("X-Method"), (int)body.size(), m.c_str());
+			else if (rc == 421 && hops > 3) { wit(W_REDIRECT_LIMIT); vf::note("redirect_limit_reached"); }
+			else if (rc == 201 && got == body && res.header("X-Method") == m.c_str() && res.header("X-Token") == "r") { if (hops > 3) wit(W_REDIRECT_LIMIT); }
+			else e += fmt("after %d redirect(s) with status %d the client saw status %d, a %d-byte body, X-Method '%s' instead of the final response (201, %d bytes, %s); ", hops, code, rc, (int)got.size(), *res.header("X-Method"), (int)body.size(), m.c_str());
 		}
 		L.done();
 		std::vector<Seen>& s = L.srv.seen; size_t want = !follow ? 1 : rc == 421 ? 4 : hops + 1;
@@ -435,7 +440,7 @@ static Job redirectJob(int code, int hops, bool follow, int bound) {
 		else for (size_t i = 0; i < s.size(); i++) {
 			bool last = follow && rc != 421 && i + 1 == s.size();
 			e += cmpSeen(s[i], m, last ? "/echo" : "/redir", last ? "code=201&k=end" : fmt("n=%d&c=%d", hops - (int)i, code), body);
-			if (s[i].headers["X-Token"] != "r") e += fmt("request header lost at hop %d; ", (int)i);
+			if (s[i].headers["x-token"] != "r") e += fmt("request header lost at hop %d; ", (int)i);
 			if (i > 0) wit(W_REDIRECT_HOPS);
 		}
 		return e;
@@ -448,7 +453,6 @@ static Job redirectJob(int code, int hops, bool follow, int bound) {
 static void rawSend(Socket& s, const std::string& bytes, const std::vector<int>& cuts) { size_t p = 0; for (size_t i = 0; i <= cuts.size(); i++) { size_t q = i < cuts.size() ? (size_t)cuts[i] : bytes.size(); if (q > p) s.write(bytes.data() + p, (int)(q - p)); p = q; if (i < cuts.size()) { usleep(1000); wit(W_FRAGMENTED); } vsched::point(); } }
 static std::string rawReadAll(Socket& s) { std::string r; char buf[64]; for (;;) { if (!s.waitInput(5.0)) break; int a = s.available(); if (a <= 0) break; int n = s.read(buf, a < 64 ? a : 64); if (n <= 0) break; r.append(buf, n); } return r; }
 struct RawResp { std::string proto; int code; std::map<std::string, std::string> h; std::string body; };
-static std::string lower(std::string s) { for (size_t i = 0; i < s.size(); i++) s[i] = (char)tolower((unsigned char)s[i]); return s; }
 // splits the bytes a server wrote into responses (status line, header fields, Content-Length body; 1xx responses have no body)
 static std::string parseResponses(const std::string& s, std::vector<RawResp>& out) {
 	size_t p = 0;
@@ -507,7 +511,7 @@ static Job rawClientJob(int variant, int cut, int bound) {
 			else if (variant == 5) e += cmpSeen(srv.seen[0], "GET", "/len", "n=3", "");
 			else e += cmpSeen(srv.seen[0], "GET", "/missing.txt", "", "");
 			if (!second.empty()) e += cmpSeen(srv.seen[1], "GET", "/len", "n=3", "");
-			if (variant == 4 && srv.seen[0].headers["Expect"] != "100-continue") e += "Expect header not seen by the handler; ";
+			if (variant == 4 && srv.seen[0].headers["expect"] != "100-continue") e += "Expect header not seen by the handler; ";
 		}
 		// the response(s) on the wire: status and exact body bytes
 		std::vector<RawResp> rs; std::string pe = parseResponses(resp, rs); size_t k = 0;
@@ -620,7 +624,7 @@ static Job twoClientsJob(int len, int bound, bool mixed = false) {
 //   twolib: two library clients <-> two raw responders (each answers with a body and a token derived from the request it read)
 struct RawClientT : public Thread { std::string req, resp; bool connected; void run() { Socket c; connected = c.connect("127.0.0.1", 8000); if (connected) { c.write(req.data(), (int)req.size()); resp = rawReadAll(c); } c.close(); } };
 struct RawResponderT : public Thread { Socket c; std::string got; void run() { char buf[256]; while (got.find("\r\n\r\n") == std::string::npos) { if (!c.waitInput(5.0)) break; int a = c.available(); if (a <= 0) break; int n = c.read(buf, a < 256 ? a : 256); if (n <= 0) break; got.append(buf, n); }
-		size_t t = got.find("X-Token: client-"); int i = t == std::string::npos ? 7 : got[t + 16] - '0'; std::string body = bodyOf(3 + i, 5 + i), r = fmt("HTTP/1.1 200 OK\r\nX-Token: client-%d\r\nContent-Length: %d\r\n\r\n", i, (int)body.size()) + body; c.write(r.data(), (int)r.size()); c.close(); } };
+		size_t t = lower(got).find("x-token: client-"); int i = t == std::string::npos ? 7 : got[t + 16] - '0'; std::string body = bodyOf(3 + i, 5 + i), r = fmt("HTTP/1.1 200 OK\r\nX-Token: client-%d\r\nContent-Length: %d\r\n\r\n", i, (int)body.size()) + body; c.write(r.data(), (int)r.size()); c.close(); } };
 static Job twoRawJob(int kind, int bound) { // kind 0: two echo posts, 1: echo post + file range, 2: two minimal HTTP/1.0 requests (few schedule points)
 	Job j; j.name = fmt(kind == 2 ? "tworaw.min.b%d" : kind == 1 ? "tworaw.mixed.b%d" : "tworaw.echo.b%d", bound); j.bound = bound; j.cap = 65536;
 	j.body = [kind]() {
@@ -662,7 +666,7 @@ static Job twoLibJob(int bound) {
 		for (int i = 0; i < 2; i++) { rr[i].c = lst.accept(); rr[i].start(); }
 		c[0].join(); c[1].join(); rr[0].join(); rr[1].join(); lst.close();
 		for (int i = 0; i < 2; i++) { if (code[i] != 200) e += fmt("client %d saw status %d; ", i, code[i]); if (got[i] != bodyOf(3 + i, 5 + i)) e += fmt("client %d received %d bytes that are not the %d bytes of its own response; ", i, (int)got[i].size(), 3 + i); if (tok[i] != fmt("client-%d", i)) e += fmt("client %d received the token '%s'; ", i, tok[i].c_str()); }
-		for (int i = 0; i < 2; i++) { size_t q = rr[i].got.find("GET /r?i="); if (q != 0 || rr[i].got.find(fmt("X-Token: client-%c", rr[i].got[9])) == std::string::npos) e += "a request on the wire mixes the two clients: '" + rr[i].got.substr(0, 80) + "'; "; }
+		for (int i = 0; i < 2; i++) { size_t q = rr[i].got.find("GET /r?i="); if (q != 0 || lower(rr[i].got).find(fmt("x-token: client-%c", rr[i].got[9])) == std::string::npos) e += "a request on the wire mixes the two clients: '" + rr[i].got.substr(0, 80) + "'; "; }
 		wit(W_TWOLIB);
 		return e;
 	};
@@ -712,11 +716,11 @@ static Job twoCliJob(int bound) {
 		for (int i = 0; i < 2; i++) { c[i].f = [i, &got, &tok, &code]() { Dic<> h; h["X-Token"] = fmt("client-%d", i).c_str(); HttpResponse res = Http::get(fmt(BASEURL "/r?i=%d", i).c_str(), h); code[i] = res.code(); got[i] = bodyStr(res); tok[i] = vfx::S(res.header("X-Token")); }; c[i].start(); }
 		Socket s[2]; for (int i = 0; i < 2; i++) s[i] = lst.accept();
 		for (int i = 0; i < 2; i++) reqs[i] = readHead(s[i]);
-		for (int i = 0; i < 2; i++) { size_t t = reqs[i].find("X-Token: client-"); int k = t == std::string::npos ? 7 : reqs[i][t + 16] - '0'; std::string body = bodyOf(3 + k, 5 + k), r = fmt("HTTP/1.1 200 OK\r\nX-Token: client-%d\r\nContent-Length: %d\r\n\r\n", k, (int)body.size()) + body; s[i].write(r.data(), (int)r.size()); }
+		for (int i = 0; i < 2; i++) { size_t t = lower(reqs[i]).find("x-token: client-"); int k = t == std::string::npos ? 7 : reqs[i][t + 16] - '0'; std::string body = bodyOf(3 + k, 5 + k), r = fmt("HTTP/1.1 200 OK\r\nX-Token: client-%d\r\nContent-Length: %d\r\n\r\n", k, (int)body.size()) + body; s[i].write(r.data(), (int)r.size()); }
 		for (int i = 0; i < 2; i++) s[i].close();
 		c[0].join(); c[1].join(); lst.close();
 		for (int i = 0; i < 2; i++) { if (code[i] != 200) e += fmt("client %d saw status %d; ", i, code[i]); if (got[i] != bodyOf(3 + i, 5 + i)) e += fmt("client %d received %d bytes that are not the %d bytes of its own response; ", i, (int)got[i].size(), 3 + i); if (tok[i] != fmt("client-%d", i)) e += fmt("client %d received the token '%s'; ", i, tok[i].c_str()); }
-		for (int i = 0; i < 2; i++) { size_t q = reqs[i].find("GET /r?i="); if (q != 0 || reqs[i].find(fmt("X-Token: client-%c", reqs[i][9])) == std::string::npos) e += "a request on the wire mixes the two clients: '" + reqs[i].substr(0, 80) + "'; "; }
+		for (int i = 0; i < 2; i++) { size_t q = reqs[i].find("GET /r?i="); if (q != 0 || lower(reqs[i]).find(fmt("x-token: client-%c", reqs[i][9])) == std::string::npos) e += "a request on the wire mixes the two clients: '" + reqs[i].substr(0, 80) + "'; "; }
 		wit(W_TWOLIB);
 		return e;
 	};
@@ -749,13 +753,13 @@ static Exch srvExch(const std::string& kind, int i) {
 	Exch x; const std::string close = "Connection: close\r\n\r\n";
 	if (kind == "file") { // two whole files with different content and type
 		x.path = i ? "/g.html" : "/f.txt"; x.req = "GET " + x.path + " HTTP/1.1\r\n" + close; x.body = i ? FILEG : FILE6;
-		x.hdr["content-length"] = "6"; x.hdr["content-type"] = i ? "text/html" : "text/plain"; x.absent.push_back("content-range");
+		x.hdr["content-length"] = "6"; x.hdr["content-type"] = i ? "text/html*" : "text/plain*"; x.absent.push_back("content-range");
 	}
 	else if (kind == "range" || kind == "range2") { // range: two offsets of the same file; range2: an open-ended range of one file, a closed range of the other
 		bool two = kind == "range2"; std::string hv = two ? (i ? "bytes=1-4" : "bytes=2-") : (i ? "bytes=3-5" : "bytes=0-2");
 		x.path = two && i ? "/g.html" : "/f.txt"; x.req = "GET " + x.path + " HTTP/1.1\r\nRange: " + hv + "\r\n" + close; x.seenHdr["Range"] = hv;
 		x.code = 206; x.body = two ? (i ? "bcde" : "2345") : (i ? "345" : "012"); x.hdr["content-range"] = two ? (i ? "bytes 1-4/6" : "bytes 2-5/6") : (i ? "bytes 3-5/6" : "bytes 0-2/6");
-		x.hdr["content-length"] = fmt("%d", (int)x.body.size()); x.hdr["content-type"] = two && i ? "text/html" : "text/plain";
+		x.hdr["content-length"] = fmt("%d", (int)x.body.size()); x.hdr["content-type"] = two && i ? "text/html*" : "text/plain*";
 	}
 	else if (kind == "stream" || (kind == "mixchunk" && i == 0)) { // chunked responses of 6 bytes in two pieces / 7 bytes in one
 		int n = i ? 7 : 6, pc = i ? 1 : 2, sd = i ? 4 : 1; x.path = "/stream"; x.query = fmt("n=%d&p=%d&s=%d", n, pc, sd); x.req = "GET /stream?" + x.query + " HTTP/1.1\r\n" + close;
@@ -776,7 +780,7 @@ static Exch srvExch(const std::string& kind, int i) {
 }
 static std::string cmpSeenX(const Seen& s, const Exch& x) {
 	std::string e = cmpSeen(s, x.m, x.path, x.query, x.reqBody);
-	for (std::map<std::string, std::string>::const_iterator h = x.seenHdr.begin(); h != x.seenHdr.end(); ++h) { std::map<std::string, std::string>::const_iterator g = s.headers.find(h->first); if (g == s.headers.end() || g->second != h->second) e += "handler saw request header " + h->first + " as '" + (g == s.headers.end() ? std::string("<absent>") : g->second) + "' instead of '" + h->second + "'; "; }
+	for (std::map<std::string, std::string>::const_iterator h = x.seenHdr.begin(); h != x.seenHdr.end(); ++h) { std::map<std::string, std::string>::const_iterator g = s.headers.find(lower(h->first)); if (g == s.headers.end() || g->second != h->second) e += "handler saw request header " + h->first + " as '" + (g == s.headers.end() ? std::string("<absent>") : g->second) + "' instead of '" + h->second + "'; "; }
 	return e;
 }
 // stall > 0: the pipes hold only `stall` bytes and the second connection is not read before the first exchange is complete, so the
@@ -940,7 +944,7 @@ int main(int argc, char** argv) {
 	else {
 		W_RANGE206 = vf::counter("w.satisfiable_ranges"); W_RANGE416 = vf::counter("w.unsatisfiable_ranges"); W_JSON = vf::counter("w.json_exchanges"); W_KEEPALIVE = vf::counter("w.keepalive_pipelined"); W_TWOCLIENTS = vf::counter("w.two_concurrent_clients"); W_CHUNKED_REQ = vf::counter("w.chunked_requests");
 		W_QUERYVALS = vf::counter("w.decoded_query_value_sets_compared"); W_PCTPATH = vf::counter("w.percent_encoded_paths"); W_FRAGMENT = vf::counter("w.urls_with_fragment"); W_RANGE_OPEN = vf::counter("w.open_ended_ranges"); W_RANGE_SUFFIX = vf::counter("w.suffix_ranges"); W_RANGE_IGNORED = vf::counter("w.unsupported_range_headers");
-		W_LOWER_HDR = vf::counter("w.lower_case_request_header_seen"); W_REDIRECT_HOPS = vf::counter("w.redirect_hops_followed"); W_REDIRECT_LIMIT = vf::counter("w.redirect_limit_reached"); W_REDIRECT_OFF = vf::counter("w.redirects_not_followed"); W_FILE_REQ = vf::counter("w.file_request_bodies"); W_MULTIPART = vf::counter("w.multipart_uploads"); W_DOWNLOAD = vf::counter("w.downloads_to_file");
+		W_LOWER_HDR = vf::counter("w.lower_case_request_header_seen"); W_REDIRECT_HOPS = vf::counter("w.redirect_hops_followed"); W_REDIRECT_LIMIT = vf::counter("w.redirect_chains_beyond_3_hops_resolved"); W_REDIRECT_OFF = vf::counter("w.redirects_not_followed"); W_FILE_REQ = vf::counter("w.file_request_bodies"); W_MULTIPART = vf::counter("w.multipart_uploads"); W_DOWNLOAD = vf::counter("w.downloads_to_file");
 		W_FORM = vf::counter("w.form_encoded_posts"); W_METHODS = vf::counter("w.delete_patch_head_exchanges"); W_OPTIONS_AUTO = vf::counter("w.options_answered_by_server"); W_EXPECT_SRV = vf::counter("w.expect_100_raw_requests"); W_INTERIM_CLI = vf::counter("w.interim_responses_to_client"); W_HTTP10 = vf::counter("w.http10_requests"); W_MISSING = vf::counter("w.missing_file_responses"); W_MIXED = vf::counter("w.concurrent_echo_and_range"); W_HDR3 = vf::counter("w.three_header_requests"); W_LIGHT = vf::counter("w.two_clients_two_handler_threads"); W_TWOLIB = vf::counter("w.two_library_clients_raw_responders"); W_FRAGMENTED = vf::counter("w.raw_streams_delivered_in_two_parts");
 		for (int k = 0; k < N_SRV_PAIR_KINDS; k++) W_PAIR_SRV[k] = vf::counter((std::string("w.pair_server_side.") + SRV_PAIR_KINDS[k]).c_str());
 		for (int k = 0; k < N_CLI_PAIR_KINDS; k++) W_PAIR_CLI[k] = vf::counter((std::string("w.pair_client_side.") + CLI_PAIR_KINDS[k]).c_str());
